@@ -44,6 +44,7 @@ import (
 	"github.com/AdguardTeam/golibs/logutil/slogutil"
 	"github.com/AdguardTeam/golibs/netutil"
 	"github.com/miekg/dns"
+	promclient "github.com/prometheus/client_golang/prometheus"
 )
 
 // ---- World -------------------------------------------------------------------
@@ -134,7 +135,34 @@ func c07Upstream() dnsserver.Handler {
 	})
 }
 
+// c07NoOPT cuts the OPT pseudo-record out of an observation.  With the simple
+// response cache the EDNS data of a response (the DO bit, the echo of an ECS
+// option) come from the upstream on a miss and from the server on a hit; they
+// are hop-by-hop data about which this property says nothing, so the
+// simple-cache sequences compare everything else.
+func c07NoOPT(obs string) string {
+	i := strings.Index(obs, " opt={")
+	if i < 0 {
+		return obs
+	}
+	j := strings.Index(obs[i:], "}")
+	if j < 0 {
+		return obs[:i]
+	}
+
+	return obs[:i] + obs[i+j+1:]
+}
+
+// c07CacheType is the response cache of the stacks built next.
+var c07CacheType = dnssvc.CacheTypeECS
+
 func c07NewRig(dir string) *c07Rig {
+	if c07CacheType == dnssvc.CacheTypeSimple {
+		// The simple cache's metrics listener registers itself with the
+		// process-wide default registry, once per process in production; a
+		// process that builds many stacks gives each its own registry.
+		promclient.DefaultRegisterer = promclient.NewRegistry()
+	}
 	rig := &c07Rig{mgr: &c07Mgr{}, profs: map[netip.Addr][2]any{}}
 	ctx := context.Background()
 	sde := agdtest.NewSDEConfig(true)
@@ -277,12 +305,12 @@ func c07NewRig(dir string) *c07Rig {
 	srvDoH := &agd.Server{Name: "srv_doh", Protocol: agd.ProtoDoH}
 	srvDoH.SetBindData([]*agd.ServerBindData{{AddrPort: netip.MustParseAddrPort(c07DoHAddr)}})
 	srvGrp := &agd.ServerGroup{
-		DDR:     &agd.DDR{DeviceTargets: container.NewMapSet[string](), PublicTargets: container.NewMapSet[string]()},
-		Name:    "sg", FilteringGroup: c07FltGrpID, Servers: []*agd.Server{srv, srvDoH}, ProfilesEnabled: true,
+		DDR:  &agd.DDR{DeviceTargets: container.NewMapSet[string](), PublicTargets: container.NewMapSet[string]()},
+		Name: "sg", FilteringGroup: c07FltGrpID, Servers: []*agd.Server{srv, srvDoH}, ProfilesEnabled: true,
 	}
 	handlers, err := dnssvc.NewHandlers(ctx, &dnssvc.HandlersConfig{
 		BaseLogger: c07Logger, Cloner: cloner,
-		Cache:         &dnssvc.CacheConfig{MinTTL: 10 * time.Second, ECSCount: 100, NoECSCount: 100, Type: dnssvc.CacheTypeECS},
+		Cache:         &dnssvc.CacheConfig{MinTTL: 10 * time.Second, ECSCount: 100, NoECSCount: 100, Type: c07CacheType},
 		HumanIDParser: agd.NewHumanIDParser(), Messages: global, StructuredErrors: sde,
 		AccessManager: &agdtest.AccessManager{
 			OnIsBlockedHost: func(_ string, _ uint16) bool { return false },
@@ -296,7 +324,7 @@ func c07NewRig(dir string) *c07Rig {
 		ErrColl:      errColl, FilterStorage: strg, GeoIP: geo, Handler: c07Upstream(),
 		HashMatcher: &agdtest.HashMatcher{OnMatchByPrefix: func(_ context.Context, _ string) ([]string, bool, error) { return nil, false, nil }},
 		ProfileDB:   db, PrometheusRegisterer: agdtest.NewTestPrometheusRegisterer(),
-		QueryLog:    &agdtest.QueryLog{OnWrite: func(_ context.Context, _ *querylog.Entry) error { return nil }},
+		QueryLog: &agdtest.QueryLog{OnWrite: func(_ context.Context, _ *querylog.Entry) error { return nil }},
 		RateLimit: &agdtest.RateLimit{
 			OnIsRateLimited:  func(_ context.Context, _ *dns.Msg, _ netip.Addr) (bool, bool, error) { return false, false, nil },
 			OnCountResponses: func(_ context.Context, _ *dns.Msg, _ netip.Addr) {},
@@ -391,8 +419,10 @@ func (c *c07Conn) WriteTo(p []byte, _ net.Addr) (int, error) {
 
 	return len(p), nil
 }
-func (c *c07Conn) Close() error                     { return nil }
-func (c *c07Conn) LocalAddr() net.Addr              { return net.UDPAddrFromAddrPort(netip.MustParseAddrPort(c07SrvAddr)) }
+func (c *c07Conn) Close() error { return nil }
+func (c *c07Conn) LocalAddr() net.Addr {
+	return net.UDPAddrFromAddrPort(netip.MustParseAddrPort(c07SrvAddr))
+}
 func (c *c07Conn) SetDeadline(time.Time) error      { return nil }
 func (c *c07Conn) SetReadDeadline(time.Time) error  { return nil }
 func (c *c07Conn) SetWriteDeadline(time.Time) error { return nil }
@@ -570,6 +600,50 @@ func c07Main(t *testing.T, r *vrt.Run) {
 		}
 		r.Class("sequence")
 		r.State(fmt.Sprint(sc.Reqs, obs))
+
+		return nil
+	})
+	// The same with the SIMPLE response cache (cache type "simple"), whose
+	// hits hand out records of the long-lived cache item when no TTL has to be
+	// rewritten: longer sequences over a reduced alphabet, so that a hit, the
+	// disposal of its response, a response built from pooled records and a
+	// second hit all fit in.
+	simpleAlpha := []int{0, 1, 2, 4, 5, 6, 7, 8}
+	simpleLen := vrt.Pick(r, 4, 5)
+	r.Bound("stack_simple_cache_sequence_length", simpleLen)
+	goldenSimple := map[int]string{}
+	vrt.Part(r, "sequences-simple-cache", func(emit func(c07Scenario)) {
+		vrt.Sequences(len(simpleAlpha), 2, simpleLen, func(seq []int) {
+			sc := c07Scenario{}
+			for _, i := range seq {
+				sc.Reqs = append(sc.Reqs, simpleAlpha[i])
+			}
+			emit(sc)
+		})
+	}, func(sc c07Scenario) []vrt.Finding {
+		defer func(ct dnssvc.CacheType) { c07CacheType = ct }(c07CacheType)
+		c07CacheType = dnssvc.CacheTypeSimple
+		if len(goldenSimple) == 0 {
+			for _, i := range simpleAlpha {
+				fresh := c07NewRig(t.TempDir())
+				goldenSimple[i] = fresh.serve(c07Alphabet[i], 0x100)
+				fresh.srv.VerifC07Release()
+			}
+		}
+		fresh := c07NewRig(t.TempDir())
+		defer fresh.srv.VerifC07Release()
+		var obs []string
+		for i, ri := range sc.Reqs {
+			got := c07NoOPT(fresh.serve(c07Alphabet[ri], uint16(0x100+i)))
+			r.Trans(1)
+			obs = append(obs, got)
+			want := c07NoOPT(strings.Replace(goldenSimple[ri], "id=256 ", fmt.Sprintf("id=%d ", 0x100+i), 1))
+			if got != want {
+				return vrt.F("stack/simple-cache/sequential-reuse-changes-answer", "simple response cache: request %s processed after %v on the same stack differs from a fresh stack:\n   used : %s\n   fresh: %s", c07Alphabet[ri].Name, sc.Reqs[:i], got, want)
+			}
+		}
+		r.Class("sequence simple cache")
+		r.State(fmt.Sprint("simple", sc.Reqs, obs))
 
 		return nil
 	})
